@@ -73,6 +73,8 @@ type Result struct {
 	Err            error          // a function or built-in reported an error (e.g. division by zero, type error)
 	Rounds         map[string]int // per stratum (joined predicate names): number of naive rounds
 	DoOnRecursive  bool           // an aggregating rule's head predicate is also derived recursively in its stratum
+	MaxGroup       int            // size of the largest group some aggregating rule reduced
+	EmptyAggBody   bool           // some aggregating rule had no solution at all
 }
 
 type env map[ast.Variable]ast.Constant
@@ -516,9 +518,15 @@ func (ev *evaluator) fireDo(r Rule) bool {
 		}
 		g.rows = append(g.rows, row)
 	}
+	if len(rows) == 0 {
+		ev.res.EmptyAggBody = true
+	}
 	changed := false
 	for _, gk := range order {
 		g := groups[gk]
+		if len(g.rows) > ev.res.MaxGroup {
+			ev.res.MaxGroup = len(g.rows)
+		}
 		e := env{}
 		for i, k := range r.Do.Keys {
 			e[ast.Variable{Symbol: k}] = g.key[i]
